@@ -27,7 +27,9 @@ LEAVES = ['role:admin', 'role:member', 'role:reader', 'is_admin:True',
           'rule:svc:owner', 'rule:helper', 'rule:undefined', '@', '!',
           'user_id:%(target.user.id)s', 'project.id:%(project_id)s',
           'user.id:%(user_id)s', 'domain_id:%(domain_id)s',
-          'None:%(target.user.id)s', 'None:%(project_id)s']
+          'None:%(target.user.id)s', 'None:%(project_id)s',
+          'domain.id:d1', 'domain.id:%(domain_id)s', 'project.domain.id:default',
+          'user.domain.id:%(target.user.id)s']
 
 
 class _Json:
@@ -90,7 +92,7 @@ def _policy(rng, with_default):
     return rules
 
 
-def run_checker(ctx, seed, index, with_default, targetfile):
+def run_checker(ctx, seed, index, with_default, targetfile, sample=None):
     from oslo_policy import policy, shell
     common.set_ctx(ctx)
     rng = random.Random('%s/c19/%s' % (seed, index))
@@ -113,6 +115,20 @@ def run_checker(ctx, seed, index, with_default, targetfile):
                             'domain': {'id': 'default'}}
     if has_system:
         token['system'] = {'all': True}
+    has_domain = bool(ctx.bool('has_domain'))
+    if has_domain:
+        token['domain'] = {'id': 'd1', 'name': 'dom'}
+    sample_path = None
+    if sample:
+        # one of the repository's three sample tokens, decoded for real
+        import os
+        sample_path = os.path.join(os.environ.get('VERIF_REPO', '/repo'),
+                                   'sample_data',
+                                   'auth_v3_token_%s.json' % sample)
+        token = json.load(open(sample_path))['token']
+        has_project = bool(token.get('project'))
+        has_system = bool(token.get('system'))
+        has_domain = bool(token.get('domain'))
     requested = ctx.choice('requested', [None, 'svc:get', 'helper',
                                          'svc:nothing', 'default'])
     env = common.PolicyEnv()
@@ -121,6 +137,8 @@ def run_checker(ctx, seed, index, with_default, targetfile):
         pf = env.write('policy.yaml', rules)
         af = env.path('access.json')
         open(af, 'wb').write(MARK)
+        if sample_path:
+            af = sample_path
         tf = None
         file_target = None
         if targetfile == 3:
@@ -154,24 +172,32 @@ def run_checker(ctx, seed, index, with_default, targetfile):
                  'user': {'id': 'u1', 'name': 'alice',
                           'domain': {'id': 'default'}},
                  'expires_at': 'never', 'is_admin': is_admin}
+        if sample_path:
+            creds = json.load(open(sample_path))['token']
+            creds['roles'] = [r['name'] for r in creds['roles']]
+            creds['user_id'] = creds['user']['id']
+            creds['is_admin'] = is_admin
         if has_project:
             creds['project'] = token['project']
-            creds['project_id'] = 'p1'
+            creds['project_id'] = token['project']['id']
         if has_system:
             creds['system'] = {'all': True}
             creds['system_scope'] = 'all'
+        if has_domain:
+            creds['domain'] = token['domain']
         if file_target is not None:
             target = _ref_flatten(file_target)
         else:
-            target = {'user_id': 'u1'}
+            target = {'user_id': creds['user_id']}
             if has_project:
-                target['project_id'] = 'p1'
+                target['project_id'] = creds['project_id']
         lib = common.mk_enforcer(
             rules=policy.Rules.load(open(pf).read(), 'default'),
             default_rule='default')
         row = {'policy': rules, 'requested': requested,
                'is_admin': is_admin, 'project': has_project,
-               'system': has_system, 'target_file': file_target}
+               'system': has_system, 'domain': has_domain,
+               'sample': sample, 'target_file': file_target}
         ctx.observe('requested', requested)
         ctx.observe('stdout', out)
         ctx.require(crashed is None, 'checker:crash',
@@ -218,6 +244,10 @@ def cubes_checker(tier, seed):
     for i in range(n):
         out.append({'seed': seed, 'index': i, 'with_default': i % 2 == 0,
                     'targetfile': i % 6})
+    for i in range(n, n + (6 if tier == 'quick' else 30)):
+        out.append({'seed': seed, 'index': i, 'with_default': i % 2 == 0,
+                    'targetfile': i % 6, 'sample': ['admin', 'member',
+                                                    'system_admin'][i % 3]})
     return out
 
 
